@@ -27,7 +27,7 @@ type Suite struct {
 	AfterEach  []vm.Closure
 	BeforeAll  []vm.Closure
 	AfterAll   []vm.Closure
-	FullMatch  bool
+	FullMatch  []Filter // filters that have matched this suite or one of its parents in full
 	caseCount  int
 }
 
@@ -86,14 +86,17 @@ func NewSuite(name string, parent *Suite, loc *position.Location) *Suite {
 
 func (s *Suite) NewSubSuite(name string, loc *position.Location) *Suite {
 	subSuite := NewSuite(name, s, loc)
-	subSuite.FullMatch = s.FullMatch
+	subSuite.FullMatch = slices.Clone(s.FullMatch)
 	return subSuite
 }
 
+// Whether the given filter has matched this suite
+// or one of its parents in full.
+func (s *Suite) FullyMatchedBy(filter Filter) bool {
+	return slices.Contains(s.FullMatch, filter)
+}
+
 func (s *Suite) RegisterSubSuite(subSuite *Suite) {
-	if !subSuite.FullMatch {
-		subSuite.FullMatch = s.FullMatch
-	}
 	s.SubSuites = append(s.SubSuites, subSuite)
 }
 
